@@ -284,6 +284,22 @@ def run_enums(ctx: Ctx) -> None:
                             add(pname, cname, "rejects_representation", f"load({cand!r}) raised {type(e).__name__}")
                         elif not is_load_error(e):
                             add(pname, cname, "non_representation_not_rejected_with_LoadError", f"load({cand!r}) raised {type(e).__name__}: {str(e)[:80]}")
+    # one retort serving all classes: a provider bound to one class must not capture the others
+    shared = Retort(recipe=[enum_by_value(classes["IntMix"], tp=int), enum_by_name(classes["Plain"]),
+                            enum_by_name(classes["StrMix"], name_style=NameStyle.UPPER_SNAKE)])
+    expect = {"IntMix": lambda m: m.value, "Plain": lambda m: m.name, "StrMix": lambda m: m.name.upper()}
+    for cname, cls in classes.items():
+        rep = expect.get(cname, lambda m: m.value)
+        for m in cls:
+            n += 1
+            try:
+                d = shared.dump(m, cls)
+                back = shared.load(d, cls)
+            except BaseException as e:  # noqa: BLE001
+                add("shared retort", cname, "round_trip_raises", f"{m!r}: {type(e).__name__}: {str(e)[:100]}")
+                continue
+            if d != rep(m) or back is not m:
+                add("shared retort", cname, "provider_bound_to_another_class_applied", f"dump({m!r}) = {d!r} (own provider gives {rep(m)!r}), load -> {back!r}")
     ctx.replayed += n
     ctx.extra["enum_class_provider_runs"] = n
 
